@@ -206,6 +206,31 @@ def expand_aliases_(e, fn):
     return expand_aliases(e, single_assign_aliases(fn))
 
 
+def check_descriptor_equality(ctx, rule: str) -> None:
+    prog = ctx.prog
+    ctx.rule(rule, "the merge and projection caches are keyed by RecordDescriptor objects: RecordDescriptor.__eq__ answers True only when the complete "
+                      "definitions (name and field tuples) are equal - never on the strength of the 32-bit identifier hash, which distinct definitions can share")
+    from .. import logic as _lg
+
+    deq = ctx.anchor_func("flow.record.base.RecordDescriptor.__eq__")
+    me, other = func_params(deq)[:2]
+    full_forms = [f"{me}.get_field_tuples() == {other}.get_field_tuples()", f"{me}._field_tuples == {other}._field_tuples", f"{me}.fields == {other}.fields",
+                  f"{me}._pack() == {other}._pack()", f"{me}.get_all_fields() == {other}.get_all_fields()"]
+    dcfg = CFG(deq)
+    n_ret = 0
+    for rn in [n for n in dcfg.stmt_nodes() if isinstance(n.ast, ast.Return) and n.ast.value is not None]:
+        v = rn.ast.value
+        if isinstance(v, ast.Constant) and v.value is False or norm(v) == "NotImplemented":
+            continue
+        n_ret += 1
+        prem = _lg.facts_as_premises(dcfg.facts_at(rn.id)) + ([] if isinstance(v, ast.Constant) else [(v, True)])
+        by_def = any(_lg.implies(prem, _lg.parse(t)) for t in full_forms) and any(_lg.implies(prem, _lg.parse(t)) for t in (f"{me}.name == {other}.name", f"{me}._pack() == {other}._pack()"))
+        ctx.check(by_def, rule, f"RecordDescriptor.__eq__:return {norm(v)[:40]}", f"`{norm(v)[:80]}` can be True without the names and the field tuples having been compared: two "
+                  "definitions whose identifier hashes collide are taken for the same descriptor and the second one is served the first one's cached merge / projection", rn.ast,
+                  "True only if name and field tuples are equal", key=f"{rule}:RecordDescriptor.__eq__:not-by-definition")
+    ctx.floor(rule, "affirmative returns of RecordDescriptor.__eq__", n_ret, 1)
+
+
 def run(ctx):
     prog = ctx.prog
     base = prog.module("flow.record.base")
@@ -493,28 +518,12 @@ def run(ctx):
 
     check_grouped_values(ctx, "R15.7")
 
-    # ------------------------------------------------------------------ R15.6 descriptors are compared by their definition
-    ctx.rule("R15.6", "the merge and projection caches are keyed by RecordDescriptor objects: RecordDescriptor.__eq__ answers True only when the complete "
-                      "definitions (name and field tuples) are equal - never on the strength of the 32-bit identifier hash, which distinct definitions can share")
-    from .. import logic as _lg
+    check_descriptor_equality(ctx, "R15.6")
 
-    deq = ctx.anchor_func("flow.record.base.RecordDescriptor.__eq__")
-    me, other = func_params(deq)[:2]
-    full_forms = [f"{me}.get_field_tuples() == {other}.get_field_tuples()", f"{me}._field_tuples == {other}._field_tuples", f"{me}.fields == {other}.fields",
-                  f"{me}._pack() == {other}._pack()", f"{me}.get_all_fields() == {other}.get_all_fields()"]
-    dcfg = CFG(deq)
-    n_ret = 0
-    for rn in [n for n in dcfg.stmt_nodes() if isinstance(n.ast, ast.Return) and n.ast.value is not None]:
-        v = rn.ast.value
-        if isinstance(v, ast.Constant) and v.value is False or norm(v) == "NotImplemented":
-            continue
-        n_ret += 1
-        prem = _lg.facts_as_premises(dcfg.facts_at(rn.id)) + ([] if isinstance(v, ast.Constant) else [(v, True)])
-        by_def = any(_lg.implies(prem, _lg.parse(t)) for t in full_forms) and any(_lg.implies(prem, _lg.parse(t)) for t in (f"{me}.name == {other}.name", f"{me}._pack() == {other}._pack()"))
-        ctx.check(by_def, "R15.6", f"RecordDescriptor.__eq__:return {norm(v)[:40]}", f"`{norm(v)[:80]}` can be True without the names and the field tuples having been compared: two "
-                  "definitions whose identifier hashes collide are taken for the same descriptor and the second one is served the first one's cached merge / projection", rn.ast,
-                  "True only if name and field tuples are equal", key="R15.6:RecordDescriptor.__eq__:not-by-definition")
-    ctx.floor("R15.6", "affirmative returns of RecordDescriptor.__eq__", n_ret, 1)
+    # ------------------------------------------------------------------ R15.8 composition results are built by keyword
+    # (extend_record, the timestamp expansion and the rewriter go through init_from_dict -> recordType(**values))
+    from .c05 import check_generated_value_tests
+    check_generated_value_tests(ctx, "R15.8")
 
 
 
